@@ -600,7 +600,92 @@ fn replay_one(rep: &mut Report, drv: &mut Driver, v: &Value) {
 
 /// Hand-written cases run first on every run: one per clause of the statement.
 /// (source, s-expression, return type, args)
-fn corpus() -> Vec<(&'static str, Prog)> {
+fn corpus() -> Vec<(String, Prog)> {
+    let mut out: Vec<(String, Prog)> = corpus_clauses().into_iter().map(|(n, p)| (n.to_string(), p)).collect();
+    out.extend(corpus_records());
+    out
+}
+
+/// Class representatives for "the order in which something is WRITTEN is not the order in which
+/// its type declares it": a literal of `R` in each of the six orders of its three fields, with
+/// the type's name, anonymous under an annotation, anonymous on the right of an assignment, and
+/// anonymous with a type of its own; effects one level down (a later-written field assigns what
+/// an earlier-written one read; a field leaves the function).
+fn corpus_records() -> Vec<(String, Prog)> {
+    use E::{Assign, Bin, Block, Field, Host, If1, Int, Record, Ret, Var};
+    let b = |e: E| Box::new(e);
+    let em = |k: i32, v: E| Host(H_EMIT, vec![Int(k), v]);
+    let main = |body: Blk, extra: Vec<T>| {
+        let mut var_tys = vec![T::I, T::I, T::B];
+        var_tys.extend(extra);
+        Prog { fns: vec![Fn_ { params: vec![0, 1, 2], ret: T::I, body }], var_tys }
+    };
+    // emit3(4, x3.b, x3.c) - x3.a: every field of the result is observed
+    let observe = || Bin(Op::Sub, b(Host(H_EMIT3, vec![Int(4), Field(b(Var(3)), 0), Field(b(Var(3)), 1)])), b(Field(b(Var(3)), 2)));
+    let order = |perm: &[usize; 3]| perm.iter().map(|i| FIELDS[*i]).collect::<Vec<_>>().join(",");
+    let mut out = vec![];
+    for perm in PERMS.iter() {
+        let lit = |anon: bool| Record(anon, vec![(perm[0], em(1, Var(0))), (perm[1], em(2, Var(1))), (perm[2], em(3, Int(7)))]);
+        out.push((
+            format!("record literal R {{ {} }}: fields run as written", order(perm)),
+            main(Blk { stmts: vec![S::Let(3, lit(false))], last: Some(b(observe())) }, vec![T::R]),
+        ));
+        out.push((
+            format!("anonymous record literal {{ {} }} under `let x: R`: fields run as written", order(perm)),
+            main(Blk { stmts: vec![S::Let(3, lit(true))], last: Some(b(observe())) }, vec![T::R]),
+        ));
+        out.push((
+            format!("anonymous record literal {{ {} }} assigned to a variable of type R: fields run as written", order(perm)),
+            main(
+                Blk { stmts: vec![S::Let(3, Record(false, vec![(0, Int(0)), (1, Int(0)), (2, Int(0))])), S::Do(Assign(3, b(lit(true))))], last: Some(b(observe())) },
+                vec![T::R],
+            ),
+        ));
+        out.push((
+            format!("anonymous record literal {{ {} }} with a type of its own: fields run as written", order(perm)),
+            main(Blk { stmts: vec![], last: Some(b(Field(b(lit(true)), perm[1]))) }, vec![]),
+        ));
+        // a later-written field assigns the variable an earlier-written field has read, and a
+        // still later one reads it again
+        out.push((
+            format!("record literal R {{ {} }}: a later-written field assigns what an earlier one read", order(perm)),
+            main(
+                Blk {
+                    stmts: vec![S::Let(
+                        3,
+                        Record(false, vec![(perm[0], Var(0)), (perm[1], Block(Blk { stmts: vec![S::Do(Assign(0, b(Int(100))))], last: Some(b(em(1, Var(0)))) })), (perm[2], Bin(Op::Add, b(Var(0)), b(Var(1))))]),
+                    )],
+                    last: Some(b(observe())),
+                },
+                vec![T::R],
+            ),
+        ));
+        // the field written second may leave the function: the first ran, the third does not
+        out.push((
+            format!("record literal R {{ {} }}: the second field as written returns", order(perm)),
+            main(
+                Blk {
+                    stmts: vec![S::Let(
+                        3,
+                        Record(
+                            false,
+                            vec![
+                                (perm[0], em(1, Var(0))),
+                                (perm[1], Block(Blk { stmts: vec![S::Do(If1(b(Var(2)), Blk { stmts: vec![S::Do(Ret(b(em(2, Int(5)))))], last: None }))], last: Some(b(em(3, Var(1)))) })),
+                                (perm[2], em(5, Int(1))),
+                            ],
+                        ),
+                    )],
+                    last: Some(b(observe())),
+                },
+                vec![T::R],
+            ),
+        ));
+    }
+    out
+}
+
+fn corpus_clauses() -> Vec<(&'static str, Prog)> {
     use E::{Accept, And, Assign, Bin, Block, Bool, CAssign, Ctor, FStr, Field, For, Host, If1, Int, List, Match, Or, Record, Reject, Ret, Try, Var, While};
     let b = |e: E| Box::new(e);
     let em = |k: i32, v: E| Host(H_EMIT, vec![Int(k), v]);
@@ -626,7 +711,7 @@ fn corpus() -> Vec<(&'static str, Prog)> {
             main(
                 T::I,
                 Blk {
-                    stmts: vec![S::Let(3, Record(vec![em(1, Var(0)), em(2, Var(1))])), S::Let(4, List(vec![em(3, Int(1)), em(4, Int(2)), em(5, Int(3))]))],
+                    stmts: vec![S::Let(3, Record(false, vec![(0, em(1, Var(0))), (1, em(2, Var(1))), (2, em(6, Int(3)))])), S::Let(4, List(vec![em(3, Int(1)), em(4, Int(2)), em(5, Int(3))]))],
                     last: Some(b(Field(b(Var(3)), 1))),
                 },
                 vec![T::R, T::L],
@@ -770,7 +855,7 @@ fn main() {
             if total_viol > rep.impl_violations.len() {
                 rep.notes.push(format!("{total_viol} violations found; the {} smallest with distinct keys are reported", rep.impl_violations.len()));
             }
-            rep.notes.push(format!("programs generated: {from}; argument tuples per program: 8; corpus programs: {}", corpus().len()));
+            rep.notes.push(format!("programs generated: {from}; argument tuples per program: 8; corpus programs: {} ({} one per clause of the statement, {} record literals: 6 written orders x 6 shapes)", corpus().len(), corpus_clauses().len(), corpus_records().len()));
         }
         Some("worker") => {
             if std::env::var("C08_VERBOSE").is_err() {
